@@ -15,6 +15,11 @@ use crate::assembler::*;
 use crate::instructions::*;
 use crate::operand::*;
 
+mod oracle_imports {
+    pub use crate::assembler::*;
+    pub use crate::instructions::*;
+    pub use crate::operand::*;
+}
 #[path = "../../kani/cairo-lang-casm/c16_oracle.rs"]
 mod oracle;
 use oracle::*;
